@@ -56,14 +56,14 @@ theorem min_2dw_u (c : PkCfg) (hc : UnalignedCfg c) (h2 : 2 ≤ c.W) : min (2 * 
 /-- Source data in UNALIGNED-DATA-COPY on the first copy beat. -/
 theorem pkUData_first (c : PkCfg) (hc : UnalignedCfg c) (st : PkSt) (sr cnt dd : Nat) (dl : Bool) (d : Nat) :
     c.pkUData { st := st, sr := sr, count := cnt, fromIdle := true, dData := dd, dLast := dl } d =
-      ubeat c (c.srFrom ((if c.W == 1 then 1 else 2) * c.dw) sr) d := by
-  simp [PkCfg.pkUData, max_l c hc, ubeat]
+      ubeat c (c.srFrom ((if c.W == 1 then 1 else 2) * c.dw) sr) (if dl then 0 else d) := by
+  cases dl <;> simp [PkCfg.pkUData, max_l c hc, ubeat]
 
 /-- … and on the following ones. -/
 theorem pkUData_next (c : PkCfg) (hc : UnalignedCfg c) (st : PkSt) (sr cnt dd : Nat) (dl : Bool) (d : Nat) :
     c.pkUData { st := st, sr := sr, count := cnt, fromIdle := false, dData := dd, dLast := dl } d =
-      ubeat c (resid c dd) d := by
-  simp [PkCfg.pkUData, max_l c hc, min_bl c hc, ubeat, resid]
+      ubeat c (resid c dd) (if dl then 0 else d) := by
+  cases dl <;> simp [PkCfg.pkUData, max_l c hc, min_bl c hc, ubeat, resid]
 
 theorem ubeat_mask (c : PkCfg) (lo x : Nat) : ubeat c lo x % 2 ^ (8 * c.L) = lo % 2 ^ (8 * c.L) := by
   unfold ubeat
@@ -237,8 +237,9 @@ theorem upacketizer_step (c : PkCfg) (hc : UnalignedCfg c) (s : PkState) (env : 
         cases iv <;>
           simp_all [uRel, Elem.step, Elem.accNow, Elem.delNow, Elem.out, packetizer, uenvNext, envAtStart]
       | true =>
-        have hm : maskPad c { data := ubeat c (resid c dd) (it.data.data % 2 ^ c.dw), first := false, last := true }
+        have hm : ∀ x, maskPad c { data := ubeat c (resid c dd) x, first := false, last := true }
             = flushBeat c dd := by
+          intro x
           simp [maskPad, flushBeat, ubeat_mask]
         cases iv <;>
           simp_all [uRel, Elem.step, Elem.accNow, Elem.delNow, Elem.out, packetizer, uenvNext, envAtStart,
